@@ -36,6 +36,10 @@ func (w *ResponseCapture) WriteHeader(code int) {
 
 // Write computes the written len and stores it in ContentLength.
 func (w *ResponseCapture) Write(b []byte) (int, error) {
+	if w.StatusCode == 0 {
+		// net/http sends an implicit 200 when Write is called before WriteHeader.
+		w.StatusCode = http.StatusOK
+	}
 	n, err := w.ResponseWriter.Write(b)
 	w.ContentLength += n
 	return n, err
@@ -45,6 +49,10 @@ func (w *ResponseCapture) Write(b []byte) (int, error) {
 // writer supports it.
 func (w *ResponseCapture) Flush() {
 	if f, ok := w.ResponseWriter.(http.Flusher); ok {
+		if w.StatusCode == 0 {
+			// flushing sends the header with an implicit 200.
+			w.StatusCode = http.StatusOK
+		}
 		f.Flush()
 	}
 }
